@@ -79,8 +79,7 @@ BigPct(v, num, k) == DivSmall(DropLimbs(BigMul(v, num), k \div 4), Pow10(k % 4))
 RECURSIVE LeqFrom(_, _, _)
 LeqFrom(a, b, i) == IF i = 0 THEN TRUE ELSE IF a[i] # b[i] THEN a[i] < b[i] ELSE LeqFrom(a, b, i - 1)
 BigLeq(a, b) == IF Len(a) # Len(b) THEN Len(a) < Len(b) ELSE LeqFrom(a, b, Len(a))
-RECURSIVE BigPow10(_)
-BigPow10(k) == IF k = 0 THEN <<1>> ELSE BigMul(<<10>>, BigPow10(k - 1))
+BigPow10(k) == [i \in 1..(k \div 4) |-> 0] \o <<Pow10(k % 4)>>
 
 -----------------------------------------------------------------------------
 (* the delegation contract's split of one epoch's rewards (computeAndUpdateRewards):                 *)
